@@ -1460,6 +1460,8 @@ class FnTranslator:
             return None
         if k == "if":
             return self.ty_of(e[2], env) or (self.ty_of(e[3], env) if e[3] else None)
+        if k == "iflet":
+            return self.ty_of(e[3], env) or (self.ty_of(e[4], env) if e[4] else None)
         if k == "block":
             env2 = dict(env)
             for s in e[1]:
@@ -2249,7 +2251,11 @@ class FnTranslator:
             return self.tr_while(None, e[3], env, k, whilelet=(e[1], e[2]))
         if kind == "for":
             return self.tr_for(e[1], e[2], e[3], env, k)
-        if kind in ("iflet", "range", "strlit"):
+        if kind == "iflet":
+            # if let P = e { A } else { B }  ==  match e { P => A, _ => B }
+            els = e[4] if e[4] is not None else ("block", [], None)
+            return self.tr(("match", e[2], [(e[1], None, e[3]), (("pwild",), None, els)]), env, k, want)
+        if kind in ("range", "strlit"):
             raise Unsupported(kind)
         raise Unsupported("expression kind " + kind)
 
